@@ -276,6 +276,8 @@ def _job_worker(spec):
     mod, fn = spec["fn"].split(":")
     t0 = time.time()
     reg = solver.Registry(spec.get("timeout_ms", 20000))
+    if spec.get("fail_fast", True):
+        reg.fail_fast = (3, 25)
     out = dict(label=spec.get("label", spec["fn"]), obligations=[], error=None, unsupported=None, stats={})
     try:
         src = source.load_all()
@@ -284,6 +286,8 @@ def _job_worker(spec):
             out["stats"] = res
     except Unsupported as e:
         out["unsupported"] = str(e)
+    except solver.FailFast as e:
+        out["stopped_early"] = str(e)
     except Exception:
         out["error"] = traceback.format_exc()
     for ob in reg.obligations:
@@ -319,4 +323,4 @@ def run_jobs(reg, jobs, workers=None):
             reg.obligations.append(ob)
         if r["unsupported"]:
             reg.undecided("%s/executor/unsupported" % r["label"], "unsupported", "executor", r["unsupported"])
-    return [dict(label=r["label"], obligations=len(r["obligations"]), seconds=r["seconds"], stats=r["stats"]) for r in results]
+    return [dict(label=r["label"], obligations=len(r["obligations"]), seconds=r["seconds"], stats=r["stats"], **({"stopped_early": r["stopped_early"]} if r.get("stopped_early") else {})) for r in results]
